@@ -9,6 +9,23 @@ use std::sync::atomic::{AtomicU64, Ordering};
 use std::sync::Mutex;
 
 pub static CASE_START_MS: AtomicU64 = AtomicU64::new(0);
+
+/// All output goes through one buffered writer behind a mutex that is held only while
+/// bytes are written, never while a case runs: the watchdog can therefore always append
+/// its HANG line after the complete lines written so far, flush, and exit.
+static OUT: Mutex<Option<std::io::BufWriter<std::io::Stdout>>> = Mutex::new(None);
+
+struct SharedOut;
+impl Write for SharedOut {
+    fn write(&mut self, buf: &[u8]) -> std::io::Result<usize> {
+        let mut g = OUT.lock().unwrap();
+        g.get_or_insert_with(|| std::io::BufWriter::new(std::io::stdout())).write(buf)
+    }
+    fn flush(&mut self) -> std::io::Result<()> {
+        let mut g = OUT.lock().unwrap();
+        g.get_or_insert_with(|| std::io::BufWriter::new(std::io::stdout())).flush()
+    }
+}
 pub static CURRENT: Mutex<String> = Mutex::new(String::new());
 
 fn now_ms() -> u64 {
@@ -37,14 +54,14 @@ fn main() {
         let st = CASE_START_MS.load(Ordering::SeqCst);
         if st != 0 && now_ms() > st + 20_000 {
             let cur = CURRENT.lock().unwrap().clone();
-            println!("{}\t=>\tHANG", cur);
-            std::io::stdout().flush().ok();
+            let mut o = SharedOut;
+            writeln!(o, "{}\t@lbc\t-\t@rec\t-\t=>\tHANG", cur).ok();
+            o.flush().ok();
             std::process::exit(3);
         }
     });
     let mode = args[1].as_str();
-    let out = std::io::stdout();
-    let mut out = std::io::BufWriter::new(out.lock());
+    let mut out = SharedOut;
     match mode {
         "tables" => ops::tables(&args[2], &args[3]),
         "features" => {
